@@ -116,6 +116,12 @@ def box_selectors(nb, rich=True, maxlist=3):
             if rich and r <= 2:
                 yield ["array", L], c, sel
     yield ["list", []], "B", []
+    # every complete permutation of the boxes (rotations are not self-inverse: order must be the requested one)
+    if 3 <= nb <= 4:
+        for perm in itertools.permutations(range(nb)):
+            if len(perm) > maxlist:
+                yield ["list", list(perm)], "A", [ids[v] for v in perm]
+            yield ["array", list(perm)], "A", [ids[v] for v in perm]
     for m in itertools.product([False, True], repeat=nb):
         sel = [i for i in ids if m[i]]
         yield ["mask", list(m)], ("A" if sel else "B"), sel
